@@ -196,7 +196,37 @@ func isNamed(t types.Type, pkg, name string) bool {
 	return o.Name() == name && o.Pkg() != nil && o.Pkg().Path() == pkg
 }
 
-func isTime(t types.Type) bool { return isNamed(t, "time", "Time") }
+func isTime(t types.Type) bool { return isNamed(t, "time", "Time") || isWrapper(t) }
+
+// isWrapper: a named struct with exactly one field of a scalar-sorted type (marshal.NanoTime{time.Time})
+// is represented by that field (same location, same term); selecting the field is the identity.
+func isWrapper(t types.Type) bool {
+	n, ok := types.Unalias(t).(*types.Named)
+	if !ok {
+		return false
+	}
+	st, ok := n.Underlying().(*types.Struct)
+	if !ok || st.NumFields() != 1 {
+		return false
+	}
+	ft := st.Field(0).Type()
+	if isNamed(ft, "time", "Time") {
+		return true
+	}
+	if b, ok := types.Unalias(ft).Underlying().(*types.Basic); ok {
+		return b.Info()&(types.IsInteger|types.IsString|types.IsBoolean) != 0
+	}
+	return false
+}
+
+func wrapperSort(t types.Type) string {
+	st := types.Unalias(t).(*types.Named).Underlying().(*types.Struct)
+	ft := st.Field(0).Type()
+	if isNamed(ft, "time", "Time") {
+		return sInt
+	}
+	return basicSort(types.Unalias(ft).Underlying().(*types.Basic))
+}
 
 // isOpaqueStruct: struct types that carry no modelled state.
 func isOpaqueStruct(t types.Type) bool {
@@ -248,6 +278,9 @@ func basicSort(b *types.Basic) string {
 
 // scalarSort returns the sort of a type that is represented by a single term, or "".
 func scalarSort(t types.Type) string {
+	if isWrapper(t) {
+		return wrapperSort(t)
+	}
 	if isTime(t) {
 		return sInt
 	}
